@@ -262,6 +262,10 @@ func NewLengthedBytesSlice(m [][]byte) ([]byte, error) {
 }
 
 func WriteLengthedSlice(w io.Writer, m [][]byte) error {
+	if len(m) > maxLengthBytes {
+		return errors.Errorf("huge size, %v", len(m))
+	}
+
 	if _, err := w.Write(Uint64ToBytes(uint64(len(m)))); err != nil {
 		return errors.WithStack(err)
 	}
@@ -372,6 +376,10 @@ func (f *BytesFrameWriter) Header(bs ...[]byte) error {
 	defer func() {
 		f.headerWritten = true
 	}()
+
+	if len(bs) > maxLengthBytes {
+		return errors.Errorf("huge size, %v", len(bs))
+	}
 
 	if _, err := f.w.Write(Uint64ToBytes(uint64(len(bs)))); err != nil {
 		return errors.Wrap(err, "[]bytes length")
